@@ -111,6 +111,11 @@ func (r *Reader) getWriteForRead(key []byte, readTs uint64) (*Write, uint64, err
 	var result *Write
 	var commitTs uint64
 	if err := r.scanWrites(key, func(w Write, ts uint64) bool {
+		if w.Kind == pb.Mutation_Rollback || w.Kind == pb.Mutation_Lock {
+			// Rollback markers and lock-only commits carry no data: they must
+			// not hide an older committed value.
+			return true
+		}
 		if ts <= readTs && (result == nil || ts > commitTs) {
 			copy := w
 			result = &copy
